@@ -290,6 +290,23 @@ pub fn run(ctx: &Ctx) -> i32 {
             if i % 16 == 0 {
                 let pr = if rng.chance(1, 2) { 4 } else { 100 };
                 table = gen_table(rng, &TableCfg { prio_range: pr, ..TableCfg::default() });
+                // priorities are signed numbers: every sixth table lies (partly) below zero, the
+                // spread stays below 100
+                if rng.chance(1, 5) {
+                    let shift = if rng.chance(2, 3) { rng.range(1, 99) as i64 } else { 0 };
+                    let scale = if shift == 0 || rng.chance(1, 2) { [2, 13, 100, 1000][rng.below(4)] } else { 1 };
+                    for o in table.iter_mut() {
+                        if let Some(b) = o.bin.as_mut() {
+                            b.prio = (b.prio - shift) * scale;
+                        }
+                    }
+                    if shift > 0 {
+                        st.bump("tables_with_negative_priorities");
+                    }
+                    if scale > 1 {
+                        st.bump("tables_with_priorities_spread_wider_than_the_usual_nesting_steps");
+                    }
+                }
                 install(&table);
             }
             let gcfg = GenCfg { lit_num: rng.below(9), un_num: rng.below(4), chain_num: rng.below(9), ..GenCfg::default() };
@@ -430,6 +447,8 @@ pub fn run(ctx: &Ctx) -> i32 {
     )
     .assume("the property does not demand equal acceptance of sloppy strings by the two parsers")
     .assume("soup strings in the known-finding class K2 (prefix style: a binary-only operator where an operand is expected, not call notation) are counted and not judged; its listed witnesses are run as a fixed catalogue")
+    .require("tables_with_negative_priorities", 100)
+    .require("tables_with_priorities_spread_wider_than_the_usual_nesting_steps", 100)
     .require("conversion_steps", 1000)
     .require("listing_cases", 1000)
     .require("listing_cases_with_more_than_64_operators_in_the_table", 100)
